@@ -563,7 +563,7 @@ package modbus
 //@   modifies c.transport
 //@   ensures [C19] res1 == nil ==> len(res0) == int(count) && lastRx(c.transport).FunctionCode == FuncCodeReadCoils && len(lastRx(c.transport).Data) == 1 + fdiv(int(count)+7, 8)
 //@   ensures [C19] res1 == nil ==> (forall j int :: 0 <= j && j < int(count) ==> res0[j] == bit8(lastRx(c.transport).Data[1+fdiv(j, 8)], fmod(j, 8)))
-//@   ensures [C19] no-spurious-error: res1 != nil ==> failed(c.transport) || lastRx(c.transport).FunctionCode != FuncCodeReadCoils || !bitsRespOK(lastRx(c.transport), count)
+//@   ensures [C19] no-spurious-error: res1 != nil && 1 <= count && count <= 2000 ==> failed(c.transport) || lastRx(c.transport).FunctionCode != FuncCodeReadCoils || !bitsRespOK(lastRx(c.transport), count)
 
 //@ func (*Client).ReadDiscreteInputs
 //@   props C19
@@ -571,7 +571,7 @@ package modbus
 //@   modifies c.transport
 //@   ensures [C19] res1 == nil ==> len(res0) == int(count) && lastRx(c.transport).FunctionCode == FuncCodeReadDiscreteInputs && len(lastRx(c.transport).Data) == 1 + fdiv(int(count)+7, 8)
 //@   ensures [C19] res1 == nil ==> (forall j int :: 0 <= j && j < int(count) ==> res0[j] == bit8(lastRx(c.transport).Data[1+fdiv(j, 8)], fmod(j, 8)))
-//@   ensures [C19] no-spurious-error: res1 != nil ==> failed(c.transport) || lastRx(c.transport).FunctionCode != FuncCodeReadDiscreteInputs || !bitsRespOK(lastRx(c.transport), count)
+//@   ensures [C19] no-spurious-error: res1 != nil && 1 <= count && count <= 2000 ==> failed(c.transport) || lastRx(c.transport).FunctionCode != FuncCodeReadDiscreteInputs || !bitsRespOK(lastRx(c.transport), count)
 
 //@ func (*Client).ReadHoldingRegs
 //@   props C19
@@ -579,7 +579,7 @@ package modbus
 //@   modifies c.transport
 //@   ensures [C19] res1 == nil ==> len(res0) == int(count) && lastRx(c.transport).FunctionCode == FuncCodeReadHoldingRegisters
 //@   ensures [C19] res1 == nil ==> (forall j int :: 0 <= j && j < int(count) ==> res0[j] == be16(lastRx(c.transport).Data, 1+2*j))
-//@   ensures [C19] no-spurious-error: res1 != nil ==> failed(c.transport) || lastRx(c.transport).FunctionCode != FuncCodeReadHoldingRegisters || !regsRespOK(lastRx(c.transport), count)
+//@   ensures [C19] no-spurious-error: res1 != nil && 1 <= count && count <= 125 ==> failed(c.transport) || lastRx(c.transport).FunctionCode != FuncCodeReadHoldingRegisters || !regsRespOK(lastRx(c.transport), count)
 
 //@ func (*Client).ReadInputRegs
 //@   props C19
@@ -587,7 +587,7 @@ package modbus
 //@   modifies c.transport
 //@   ensures [C19] res1 == nil ==> len(res0) == int(count) && lastRx(c.transport).FunctionCode == FuncCodeReadInputRegisters
 //@   ensures [C19] res1 == nil ==> (forall j int :: 0 <= j && j < int(count) ==> res0[j] == be16(lastRx(c.transport).Data, 1+2*j))
-//@   ensures [C19] no-spurious-error: res1 != nil ==> failed(c.transport) || lastRx(c.transport).FunctionCode != FuncCodeReadInputRegisters || !regsRespOK(lastRx(c.transport), count)
+//@   ensures [C19] no-spurious-error: res1 != nil && 1 <= count && count <= 125 ==> failed(c.transport) || lastRx(c.transport).FunctionCode != FuncCodeReadInputRegisters || !regsRespOK(lastRx(c.transport), count)
 
 //@ func (*Client).WriteSingleCoil
 //@   props C19
